@@ -161,3 +161,78 @@ def twin_animation_settings_do_not_leak(i_fps: int, i_secs: int) -> bool:
     """
     rest, animation, akw = process_animation_kwargs([_PATH_OBJ], animation=True, animation_fps=_pick(FPS, i_fps), animation_time=_pick(SECS, i_secs))
     return akw["animation_fps"] == _magpy.defaults.display.animation.fps
+
+
+# ---------------------------------------------------------------------------- every object of a (nested) collection gets a graphic
+from types import SimpleNamespace as _NS
+
+import magpylib._src.display.traces_utility as _TU
+
+_T, _M, _L = _magpy.Collection(), _magpy.Collection(), _magpy.Collection()
+_S1 = _magpy.Sensor()
+_D1 = _magpy.misc.Dipole(moment=(1, 0, 0))
+_TC = [_T, _M, _L]
+_TO = [_T, _M, _L, _S1, _D1]
+
+
+def _fake_style(obj, defaults, **kw):
+    # stub for get_style (resolved per object; its content is the subject of C20): only the attributes the bookkeeping reads
+    return _NS(label="x", color="k", legend=_NS(text="t", show=True), description=_NS(show=False, text=None))
+
+
+def _tree(pm: int, pl: int, ps: int, pd: int):
+    for o in _TO:
+        o._parent = None
+    for c in _TC:
+        c._children = []
+        c._sources = []
+        c._sensors = []
+        c._collections = []
+    for o, p in ((_M, pm), (_L, pl), (_S1, ps), (_D1, pd)):
+        if p >= 0:
+            o._parent = _TC[p]
+            _TC[p]._children.append(o)
+    for c in _TC:
+        c._update_src_and_sens()
+
+
+def _descendants(c):
+    out = []
+    for x in getattr(c, "_children", []):
+        out.append(x)
+        out += _descendants(x)
+    return out
+
+
+def h_every_descendant_is_drawn(pm: int, pl: int, ps: int, pd: int, top: int) -> bool:
+    """
+    pre: -1 <= pm <= 0 and -1 <= pl <= 1 and -1 <= ps <= 2 and -1 <= pd <= 2 and 0 <= top <= 4
+    post: _
+    """
+    # show(X) in one subplot and show(T) in a second one: the bookkeeping that decides which objects get a graphic in which subplot lists X
+    # and every object below it, at any nesting depth, exactly once per subplot
+    _tree(pm, pl, ps, pd)
+    x = _TO[top]
+    objs = [{"objects": [x], "row": 1, "col": 1}, {"objects": [_T], "row": 1, "col": 2}]
+    orig = _TU.get_style
+    _TU.get_style = _fake_style
+    try:
+        res = _TU.get_objects_props_by_row_col(*objs, colorsequence=["r", "g", "b"], style_kwargs={})
+    finally:
+        _TU.get_style = orig
+    ok = True
+    for spec in objs:
+        root = spec["objects"][0]
+        want = [root] + _descendants(root)
+        got = list(res[(spec["row"], spec["col"])]["objects"].keys())
+        ok = ok and len(got) == len(want) and all(any(g is w for g in got) for w in want)
+    return ok
+
+
+def twin_every_descendant_is_drawn(pm: int, pl: int, ps: int) -> bool:
+    """
+    pre: -1 <= pm <= 0 and -1 <= pl <= 1 and -1 <= ps <= 2
+    post: _
+    """
+    _tree(pm, pl, ps, -1)
+    return not (_S1._parent is _L and _L._parent is _M and _M._parent is _T)  # a sensor three levels deep is reachable
